@@ -323,6 +323,7 @@ def run_shard(ctx):
 def replay(record):
     from ..runner import Ctx
     ctx = Ctx("C14", "quick", 0, 0, 1, collect=True)
+    ctx.replaying = True
     prop(ctx, {"spec": record["spec"], "map": record["map"], "perms": {k: v for k, v in record["perms"].items()}, "prefix": record.get("prefix", []),
                "pins": [], "seed": record.get("seed", 0)})
     if ctx.violations:
